@@ -111,7 +111,10 @@ def run(ctx):
         if i % 2 == 0:
             # the MolecularData entry points: the values checked below are those of the record carrying these integrals
             from openfermion.functionals.get_one_norm import get_one_norm_mol, get_one_norm_mol_woconst
-            mol = of.MolecularData([('H', (0, 0, 0)), ('H', (0, 0, 0.7414))], 'sto-3g', 1, filename=os.path.join(tempfile.gettempdir(), 'vf_c19_mol_%d' % os.getpid()))
+            # one record object is reused: its integrals change between the calls (e.g. after an orbital rotation)
+            if '_c19_mol' not in globals() or rng.random() < 0.2:
+                globals()['_c19_mol'] = of.MolecularData([('H', (0, 0, 0)), ('H', (0, 0, 0.7414))], 'sto-3g', 1, filename=os.path.join(tempfile.gettempdir(), 'vf_c19_mol_%d' % os.getpid()))
+            mol = globals()['_c19_mol']
             mol.nuclear_repulsion = const; mol.one_body_integrals = h; mol.two_body_integrals = eri
             v1, v2 = get_one_norm_mol(mol), get_one_norm_mol_woconst(mol)
         add('get_one_norm', '(one_norm_ok %s true %s %s && one_norm_ok %s false %s %s)' % (coq_fop_terms(spec), cQ(Fraction(float(v1))), cQ(Fraction(1, 10 ** 9)), coq_fop_terms(spec), cQ(Fraction(float(v2))), cQ(Fraction(1, 10 ** 9))),
